@@ -44,6 +44,17 @@ EXPLANATION = (
     "queueing, what the loop body called on it before (a method establishes the comparisons that hold on all its normal "
     "exits) - checked once for an event nobody activated (every request but the head of the queue) and once for the one "
     "_start_new_segment activated; the same for the call _start_new_segment makes between installing and waking a fetcher; "
+    "(10) nor can a status call of those loops die of a field that is still None: starting from the same two abstract states "
+    "(the dict add_segment_request creates the event with: active_time / finish_time / success / decode_time / segment_start / "
+    "segment_length None; after activate(): active_time not None) each method the loop body - or _start_new_segment between "
+    "installing and waking a fetcher - calls on the event is explored forward (stores kill / establish None-ness, None tests "
+    "and truth tests prune, self.helper() by its summary), and every operation that raises for a None operand - arithmetic, "
+    "unary minus, ordering comparison, `in` with it as container, subscript, attribute access, call, iteration / unpacking / "
+    "augmented assignment, a numeric or collection builtin - on an operand that IS None in that state (also through a local, "
+    "x.get(k), a self.helper(), a module-level function or a method of the object the event was constructed with (DownloadStatus) "
+    "that receives the None as an argument) is a violation, unless a handler catches the TypeError / AttributeError in the "
+    "method, or in the loop body with the request still handed to _deliver afterwards; nothing is reported for a field whose "
+    "None-ness is not known (start_time, anything a call may have changed); "
     "(9) ShareFinder._request_retired cannot raise before the request has left pending_requests: a keyed access with the "
     "request as key (x[req], del x[req], x.pop(req), x.remove(req), attribute of x.get(req) / x.pop(req, None), `assert req in "
     "x`, a raise behind `req not in x`) to a table that another ShareFinder method removes entries from or that send_request "
@@ -66,12 +77,14 @@ EXPLANATION = (
     "completes its block), by how much _got_segment reduces _size, which segment number _start_new_segment / "
     "_fetch_next choose, the per-server-limit comparison of _find_and_use_share, None-dereferences and other "
     "exceptions raised by calls the CFG does not model as raising (e.g. a deleted local that turns into a NameError "
-    "before the reset); for (8): aborts of a status method that depend on its arguments only, exceptions that are not an "
-    "assert / raise (arithmetic on a None field), calls in the loop body on anything but the status event (now(), "
+    "before the reset); for (8): aborts of a status method that depend on its arguments only, exceptions that are neither an "
+    "assert / raise nor an operation on a field known to be None ((10) does not know the types of the other fields: a str "
+    "where a number is expected, a missing key, a None hidden in a %-format or an f-string format spec, a None returned by a "
+    "helper), calls in the loop body on anything but the status event (now(), "
     "eventually, len) and DownloadStatus.add_misc_event between the loop and _start_new_segment(); for (9): an exception "
     "raised inside a helper _request_retired calls, and one raised after the discard (the answer is then lost as an error "
     "but the finder goes on - a wrong verdict, not a hang).")
-TECHNIQUE = "static analysis: CFG x typestate monitors (reset/restart, stop/report; completion exits excused on identity-test edges against pre-gap captures of _active_segment), must-pass path queries, per-path edge-fact sets (what a waiting fetcher knows), normal-form comparison of queue filters, Deferred chain order, per-method abort/establish summaries of the status-event class applied along the delivery loops (abstract object state = set of comparisons), exception-path exploration of the finder's retire step with key-presence guards"
+TECHNIQUE = "static analysis: CFG x typestate monitors (reset/restart, stop/report; completion exits excused on identity-test edges against pre-gap captures of _active_segment), must-pass path queries, per-path edge-fact sets (what a waiting fetcher knows), normal-form comparison of queue filters, Deferred chain order, per-method abort/establish summaries of the status-event class applied along the delivery loops (abstract object state = set of comparisons), forward abstract interpretation of the status-event methods from the constructor state for None-operand operations (interprocedural through self helpers, module functions and the constructing object's methods, parameter binding by normal-form substitution), exception-path exploration of the finder's retire step with key-presence guards"
 
 NODE = "immutable.downloader.node:DownloadNode"
 FETCH = "immutable.downloader.fetcher:SegmentFetcher"
@@ -347,6 +360,42 @@ def _apply(st, s):
     return _forget(st, s.kills) | s.post
 
 
+def _store_effects(fn, fx, n, st, kills, any_base=False):
+    """The abstract state after the stores of node `n`: what is overwritten on the object (`self.`-rooted targets; any
+    attribute / item target with any_base) is forgotten and entered in `kills`, a plain store of None / of a value that
+    cannot be None is remembered."""
+    a = n.ast
+    if n.kind == "stmt" and isinstance(a, (ast.Assign, ast.AugAssign, ast.AnnAssign, ast.Delete)):
+        targets = list(a.targets) if isinstance(a, (ast.Assign, ast.Delete)) else [a.target]
+        flat = []
+        while targets:
+            t = targets.pop()
+            if isinstance(t, (ast.Tuple, ast.List)):
+                targets.extend(t.elts)
+            elif isinstance(t, ast.Starred):
+                targets.append(t.value)
+            else:
+                flat.append(t)
+        for t in flat:
+            if not isinstance(t, (ast.Attribute, ast.Subscript)):
+                continue
+            whole = isinstance(t, ast.Subscript) and not isinstance(t.slice, ast.Constant)
+            try:
+                l = fx.norm(n, t.value if whole else t)
+            except Exception:
+                l = None
+            if not (_on_self(l) or (any_base and l)):
+                continue
+            kills.add(l)
+            st = _forget(st, {l})
+            if isinstance(a, ast.Assign) and len(flat) == 1 and not whole:
+                if _is_none(a.value):
+                    st = st | {("is", "None", l)}
+                elif _not_none_value(fn, a.value):
+                    st = st | {("is not", "None", l)}
+    return st
+
+
 def _event_summary(cls, fn, cache, depth=0):
     """Abstract effect of one method of a status-event class on the object's own state: the paths on which it aborts
     (assert / raise) with the comparisons that lead there, the comparisons on `self.` state that hold whenever it
@@ -375,34 +424,7 @@ def _event_summary(cls, fn, cache, depth=0):
                 if p and p.startswith("self."):
                     out.kills.add(p)
                     st = _forget(st, {p})
-        if n.kind == "stmt" and isinstance(a, (ast.Assign, ast.AugAssign, ast.AnnAssign, ast.Delete)):
-            targets = list(a.targets) if isinstance(a, (ast.Assign, ast.Delete)) else [a.target]
-            flat = []
-            while targets:
-                t = targets.pop()
-                if isinstance(t, (ast.Tuple, ast.List)):
-                    targets.extend(t.elts)
-                elif isinstance(t, ast.Starred):
-                    targets.append(t.value)
-                else:
-                    flat.append(t)
-            for t in flat:
-                if not isinstance(t, (ast.Attribute, ast.Subscript)):
-                    continue
-                whole = isinstance(t, ast.Subscript) and not isinstance(t.slice, ast.Constant)
-                try:
-                    l = fx.norm(n, t.value if whole else t)
-                except Exception:
-                    l = None
-                if not _on_self(l):
-                    continue
-                out.kills.add(l)
-                st = _forget(st, {l})
-                if isinstance(a, ast.Assign) and len(flat) == 1 and not whole:
-                    if _is_none(a.value):
-                        st = st | {("is", "None", l)}
-                    elif _not_none_value(fn, a.value):
-                        st = st | {("is not", "None", l)}
+        st = _store_effects(fn, fx, n, st, out.kills)
         return st
 
     def transfer(n, lab, nxt, st):
@@ -457,6 +479,297 @@ def _fact_text(g):
     if op in ("truth", "false"):
         return ("%s" if op == "truth" else "not %s") % l
     return "%s %s %s" % (rr, op, l)
+
+
+# ---- operations of a status-event method that raise for an operand that is None (C46.10) ----------------
+# builtins that raise TypeError for a None argument (in any position the rule looks at: the first)
+_NONE_HOSTILE = {"len", "int", "float", "abs", "round", "sum", "min", "max", "sorted", "list", "tuple", "set", "frozenset",
+                 "iter", "next", "reversed", "enumerate", "zip", "divmod", "pow", "ord", "chr", "hex", "oct", "bin", "dict"}
+_READERS = {"get", "keys", "values", "items", "copy", "index", "count"}
+_ORDERED = (ast.Lt, ast.LtE, ast.Gt, ast.GtE)
+
+
+def _always_evaluated(e):
+    """Sub-expressions of `e` that are evaluated whenever `e` is (nothing behind a short circuit, a conditional
+    expression, a comprehension's iteration or a lambda)."""
+    yield e
+    if isinstance(e, ast.BoolOp):
+        kids = e.values[:1]
+    elif isinstance(e, ast.IfExp):
+        kids = [e.test]
+    elif isinstance(e, (ast.ListComp, ast.SetComp, ast.GeneratorExp, ast.DictComp)):
+        kids = [e.generators[0].iter]
+    elif isinstance(e, ast.Lambda):
+        kids = []
+    elif isinstance(e, ast.Compare) and len(e.ops) > 1:
+        kids = [e.left, e.comparators[0]]
+    else:
+        kids = list(ast.iter_child_nodes(e))
+    for k in kids:
+        if isinstance(k, (ast.expr, ast.Starred, ast.keyword)):
+            for x in _always_evaluated(k):
+                yield x
+
+
+def _canon_item(l):
+    """`x.get(k)` / `x.get(k, None)` reads the same item as `x[k]`."""
+    m = re.match(r"^(.*)\.get\(([^,()]+)(, None)?\)$", l or "")
+    return "%s[%s]" % (m.group(1), m.group(2)) if m else l
+
+
+class _NoneHazards:
+    """Forward exploration of status-event methods from a known abstract state of the object: which operations raise
+    because an operand is None in that state (arithmetic, ordering comparison, subscript, attribute access, call,
+    iteration / unpacking, a builtin that needs a number or a collection), in the method itself, a self.helper(), a
+    module-level function or a method of an object the event was constructed with that it hands the value to."""
+
+    def __init__(self, idx, attr_classes):
+        self.idx = idx
+        self.attr_classes = attr_classes      # {class qual: {"self._ds": ClassInfo}}
+        self.memo = {}
+        self.summaries = {}
+        self.states = 0
+
+    # -- what is evaluated at a node, as (operand expression, exception, whole expression) ----------------
+    def operands(self, fn, n):
+        a = n.ast
+        out = []
+        roots = []
+        if n.kind == "iter":
+            out.append((a.iter, "TypeError", a.iter))
+            roots = [a.iter]
+        elif n.kind == "with":
+            roots = [i.context_expr for i in a.items]
+            out.extend((e, "AttributeError", e) for e in roots)
+        elif n.kind == "test":
+            roots = [a] if isinstance(a, ast.expr) else []
+        elif n.kind == "stmt":
+            if isinstance(a, ast.Assign):
+                roots = [a.value] + list(a.targets)
+                if any(isinstance(t, (ast.Tuple, ast.List)) for t in a.targets):
+                    out.append((a.value, "TypeError", a.value))
+            elif isinstance(a, ast.AugAssign):
+                roots = [a.value, a.target]
+                out.append((a.target, "TypeError", a.target))
+                out.append((a.value, "TypeError", a.value))
+            elif isinstance(a, ast.AnnAssign):
+                roots = [x for x in (a.value, a.target) if x is not None]
+            elif isinstance(a, (ast.Expr, ast.Return)):
+                roots = [a.value] if a.value is not None else []
+            elif isinstance(a, ast.Delete):
+                roots = list(a.targets)
+            elif isinstance(a, ast.Raise):
+                roots = [x for x in (a.exc, a.cause) if x is not None]
+            elif isinstance(a, ast.Assert):
+                roots = [a.test]
+        for root in roots:
+            for x in _always_evaluated(root):
+                if isinstance(x, ast.BinOp):
+                    fmt = isinstance(x.op, ast.Mod)
+                    if not (fmt and isinstance(x.left, (ast.Constant, ast.JoinedStr))):
+                        out.append((x.left, "TypeError", x))
+                    if not fmt:
+                        out.append((x.right, "TypeError", x))
+                elif isinstance(x, ast.UnaryOp) and isinstance(x.op, (ast.USub, ast.UAdd, ast.Invert)):
+                    out.append((x.operand, "TypeError", x))
+                elif isinstance(x, ast.Compare) and len(x.ops) == 1:
+                    if isinstance(x.ops[0], _ORDERED):
+                        out.append((x.left, "TypeError", x))
+                        out.append((x.comparators[0], "TypeError", x))
+                    elif isinstance(x.ops[0], (ast.In, ast.NotIn)):
+                        out.append((x.comparators[0], "TypeError", x))
+                elif isinstance(x, ast.Subscript):
+                    out.append((x.value, "TypeError", x))
+                elif isinstance(x, ast.Attribute) and not (x.attr.startswith("__") and x.attr.endswith("__")):
+                    out.append((x.value, "AttributeError", x))
+                elif isinstance(x, ast.Starred):
+                    out.append((x.value, "TypeError", x))
+                elif isinstance(x, ast.Call):
+                    if isinstance(x.func, ast.Name) and x.func.id in _NONE_HOSTILE and x.args and not x.keywords \
+                            and x.func.id not in fn.module.funcs and x.func.id not in fn.module.imports \
+                            and x.func.id not in fn.module.assigns and x.func.id not in fn.params \
+                            and not isinstance(x.args[0], ast.Starred):
+                        out.append((x.args[0], "TypeError", x))
+                    elif not isinstance(x.func, (ast.Name, ast.Attribute)):
+                        out.append((x.func, "TypeError", x))
+        return out
+
+    def is_none(self, fx, n, e, st):
+        if _is_none(e):
+            return "None"
+        if not isinstance(e, (ast.Name, ast.Attribute, ast.Subscript, ast.Call)):
+            return None
+        try:
+            l = _canon_item(fx.norm(n, e))
+        except Exception:
+            return None
+        if l == "None" or (l and ("is", "None", l) in st):
+            return l
+        return None
+
+    # -- calls the rule can follow --------------------------------------------------------------------------
+    def callee(self, cls, fn, fx, n, c):
+        """(class of the callee or None, FuncInfo, normal form of what its `self` is) or None."""
+        f = c.func
+        if isinstance(f, ast.Attribute):
+            try:
+                recv = fx.norm(n, f.value)
+            except Exception:
+                recv = None
+            if recv == "self" and cls is not None:
+                m = cls.lookup(f.attr)
+                return (cls, m, "self") if m is not None else None
+            oc = self.attr_classes.get(cls.qual if cls is not None else None, {}).get(recv)
+            if oc is not None:
+                m = oc.lookup(f.attr)
+                return (oc, m, recv) if m is not None else None
+            return None
+        if isinstance(f, ast.Name):
+            g = _target_func(fn, f)
+            if g is None:
+                g = self.idx.resolve_expr(fn.module, f)
+            if isinstance(g, FuncInfo) and g.cls is None:
+                return (None, g, None)
+        return None
+
+    def bind(self, fx, n, c, target, st):
+        """The None-ness the callee knows of its own names: facts of `st` re-expressed through the parameter binding."""
+        ocls, g, recv = target
+        pairs = []
+        if recv is not None:
+            pairs.append(("self", recv))
+        ps = first_positional_params(g) if g.cls is not None else list(g.params)
+        out = set()
+        for i, p in enumerate(ps):
+            a = arg(c, i, p)
+            if a is None:
+                continue
+            if _is_none(a):
+                out.add(("is", "None", p))
+                continue
+            try:
+                l = _canon_item(fx.norm(n, a))
+            except Exception:
+                l = None
+            if l and re.match(r"^[\w.\[\]'\"]+$", l) and not re.match(r"^\d", l):
+                pairs.append((p, l))
+        pairs.sort(key=lambda t: -len(t[1]))
+
+        def sub(s_):
+            for (p, l) in pairs:
+                if s_ == l:
+                    return p
+                if s_.startswith(l + "[") or s_.startswith(l + "."):
+                    return p + s_[len(l):]
+            return None
+        for f_ in st:
+            if f_[0] in ("is", "is not") and f_[1] == "None" and f_[2]:
+                t = sub(f_[2])
+                if t:
+                    out.add((f_[0], "None", t))
+            elif f_[0] in ("truth", "false") and f_[1]:
+                t = sub(f_[1])
+                if t:
+                    out.add((f_[0], t, None))
+        return frozenset(out)
+
+    # -- one node ---------------------------------------------------------------------------------------------
+    def raised_at(self, cls, fn, fx, n, st, depth):
+        """[(exception, FuncInfo, node, expression, operand normal form, [calls leading there])] raised at `n` in state st."""
+        out = []
+        for (e, exc, whole) in self.operands(fn, n):
+            l = self.is_none(fx, n, e, st)
+            if l is not None:
+                out.append((exc, fn, n, whole, l, ()))
+        if depth < 3:
+            for c in node_calls(n):
+                t = self.callee(cls, fn, fx, n, c)
+                if t is None:
+                    continue
+                est2 = self.bind(fx, n, c, t, st)
+                if not any(f_[0] == "is" for f_ in est2):
+                    continue
+                for (exc, f2, n2, e2, l2, chain) in self.run(t[0], t[1], est2, depth + 1):
+                    out.append((exc, f2, n2, e2, l2, (src(fn, c),) + tuple(chain)))
+        return out
+
+    def after(self, cls, fn, fx, n, st):
+        for c in node_calls(n):
+            f = c.func
+            t = self.callee(cls, fn, fx, n, c)
+            if t is not None and t[0] is cls and t[2] == "self" and cls is not None:
+                st = _apply(st, _event_summary(cls, t[1], self.summaries))
+            gone = set()
+            if isinstance(f, ast.Attribute) and not (t is not None and t[2] == "self") and f.attr not in _READERS:
+                try:
+                    gone.add(fx.norm(n, f.value))
+                except Exception:
+                    pass
+            for a in list(c.args) + [k.value for k in c.keywords]:
+                if isinstance(a, (ast.Name, ast.Attribute, ast.Subscript)):
+                    try:
+                        gone.add(fx.norm(n, a))
+                    except Exception:
+                        pass
+            gone = {g_ for g_ in gone if g_ and re.match(r"^[\w.\[\]'\"]+$", g_)}
+            if "self" in gone:
+                return frozenset()
+            st = _forget(st, gone)
+        st = _store_effects(fn, fx, n, st, set(), any_base=True)
+        names = {s_ for s_ in node_stores(n) if re.match(r"^\w+$", s_)}
+        return _forget(st, names)
+
+    @staticmethod
+    def caught(cfg, n, exc):
+        for (d, l) in cfg.succ[n.id]:
+            h = cfg.nodes[d]
+            if l == "exc" and h.kind == "except" and C._default_exc_match(exc, h.ast.type) is not False:
+                return h
+        return None
+
+    # -- one method -------------------------------------------------------------------------------------------
+    def run(self, cls, fn, est, depth=0):
+        key = (fn.qual, est)
+        if key in self.memo:
+            return self.memo[key]
+        out = self.memo[key] = []
+        cfg = fn.cfg()
+        fx = FlowNorm(fn)
+
+        def transfer(n, lab, nxt, st):
+            if n.kind in ("entry", "exit", "raise"):
+                return st
+            hz = self.raised_at(cls, fn, fx, n, st, depth)
+            if lab == "exc":
+                # only the exception of a None operand is followed, into the handler that catches it
+                return st if any(self.caught(cfg, n, h[0]) is nxt for h in hz) else None
+            if hz:
+                return None
+            st = self.after(cls, fn, fx, n, st)
+            f = fx.edge_fact(n, lab)
+            if f:
+                f = (f[0], _canon_item(f[1]), _canon_item(f[2]))
+                if _refuters(f) & st:
+                    return None
+                if f[0] in ("is", "is not") and f[1] == "None":
+                    st = st | {f}
+                    if f[0] == "is":
+                        st = st | {("false", f[2], None)}
+                elif f[0] == "truth":
+                    st = st | {f, ("is not", "None", f[1])}
+            return st
+        visited, _parent = explore(cfg, est, transfer)
+        self.states += len(visited)
+        seen = set()
+        for (nid, st) in sorted(visited, key=lambda x: (x[0], sorted(map(str, x[1])))):
+            n = cfg.nodes[nid]
+            if n.kind in ("entry", "exit", "raise"):
+                continue
+            for h in self.raised_at(cls, fn, fx, n, st, depth):
+                if self.caught(cfg, n, h[0]) is None and (h[1].qual, h[2].id, h[4]) not in seen:
+                    seen.add((h[1].qual, h[2].id, h[4]))
+                    out.append(h)
+        return out
 
 
 # --------------------------------------------------------------------- rules
@@ -1089,6 +1402,7 @@ def run(ctx: Context):
     # in the loop body leaves the requests not yet reached without anybody to fire them and skips
     # _start_new_segment().  The status event of a request is in the state the node put it in: the one at the
     # head of the queue was activated by _start_new_segment, every other one is as add_segment_request made it.
+    deref_sites, deref_problems, deref = [], {}, [None]
     with ctx.rule("C46.8", "R1/E3", "a status-event method called on every request of a delivery loop cannot abort for "
                   "the state such a request's event is in (fresh from add_segment_request, or activated by "
                   "_start_new_segment) unless the loop body itself established what the method asserts", expected=5) as r:
@@ -1115,6 +1429,7 @@ def run(ctx: Context):
         # its class, and the state add_segment_request creates it in
         makers = [f for f in idx.by_name.get("add_segment_request", []) if f.cls is not None]
         ev_cls, init = None, frozenset()
+        attr_classes = {}
         for mk in makers:
             mcfg = mk.cfg()
             mrd = C.reaching_defs(mcfg)
@@ -1138,6 +1453,8 @@ def run(ctx: Context):
                         base = attr_path(x.targets[0])
                         if a is not None and (_not_none_value(mk, a) or (isinstance(a, ast.Name) and a.id == "self")):
                             init |= {("is not", "None", base)}
+                        if isinstance(a, ast.Name) and a.id == "self" and mk.cls is not None:
+                            attr_classes.setdefault(ci.qual, {})[base] = mk.cls
                         if isinstance(a, ast.Dict):
                             for k, val in zip(a.keys, a.values):
                                 if isinstance(k, ast.Constant) and isinstance(val, ast.Constant):
@@ -1146,6 +1463,23 @@ def run(ctx: Context):
         if ev_cls is None:
             raise AnchorVanished("no add_segment_request method that returns a status event")
         cache = {}
+        deref[0] = hz10 = _NoneHazards(idx, attr_classes)
+
+        fires = _schedules(lambda p_: p_ == "self._deliver")
+
+        def note_derefs(fn, cfg, n, c, m, st, who, where, w=None, head=None):
+            """(for C46.10) what `c`, a call of method m on an event in state st, raises because a field is still None"""
+            for (exc, f2, n2, e2, l2, chain) in hz10.run(ev_cls, m, frozenset(st)):
+                hd = hz10.caught(cfg, n, exc)
+                if hd is not None and head is not None:
+                    # a handler in the loop body shields the loop only if this request is still handed to _deliver
+                    vis, _p = explore(cfg, 0, lambda m_, lab, nxt, s_: None if (m_ is head or lab == "exc" or fires(m_)) else 0, start=hd)
+                    if (head.id, 0) not in vis and (cfg.exit.id, 0) not in vis:
+                        continue
+                elif hd is not None:
+                    continue
+                deref_problems.setdefault((fn.qual, id(c), f2.qual, n2.id, l2), (fn, c, exc, f2, n2, e2, l2, chain, who, where, w,
+                                                                               hd is not None))
 
         def summ(name, fn, at):
             m = ev_cls.lookup(name)
@@ -1188,6 +1522,7 @@ def run(ctx: Context):
                 for c in calls_on(n, head_var):
                     seen_call = True
                     m, s_ = summ(c.func.attr, sn, c)
+                    note_derefs(sn, sn.cfg(), n, c, m, st, "a newly queued request", "start")
                     # (the head of the queue is fresh: a request leaves the queue together with the fetcher started for it)
                     for (own, f2, n2) in _unsafe_aborts(s_, st):
                         r.violation(f2, f2.loc(n2.ast), "%s aborts (%s) for the state the event of a newly queued request is in, and "
@@ -1197,6 +1532,7 @@ def run(ctx: Context):
                     st = _apply(st, s_)
             if seen_call:
                 r.site(sn, None, "activates the head of the queue")
+                deref_sites.append((sn, None, "activates the head of the queue"))
                 variants.append(("the request _start_new_segment activated", st))
         # position of the event in what _extract_requests hands to the loops
         retire_comp = [x for (x, _c) in _queue_filters(er)
@@ -1233,6 +1569,7 @@ def run(ctx: Context):
                     raise AnalysisError("the delivery loop of %s does not unpack the retired request: %s" % (short(fn), src(fn, t)))
                 var = t.elts[lpos].id
                 r.site(fn, h.ast, "delivery loop, status event `%s`" % var)
+                deref_sites.append((fn, h.ast, "delivery loop, status event `%s`" % var))
                 problems = {}
                 for (who, est0) in variants:
 
@@ -1242,6 +1579,7 @@ def run(ctx: Context):
                             if record is not None:
                                 for (own, f2, n2) in _unsafe_aborts(s, st):
                                     record(c, m, own, f2, n2)
+                                record(c, m, None, None, None, n, st)
                             st = _apply(st, s)
                         return st
 
@@ -1259,7 +1597,10 @@ def run(ctx: Context):
                             if n is h or n.kind in ("entry", "exit", "raise"):
                                 continue
 
-                            def record(c, m, own, f2, n2, _nid=nid, _st=st, _who=who):
+                            def record(c, m, own, f2, n2, at=None, est=None, _nid=nid, _st=st, _who=who):
+                                if at is not None:
+                                    note_derefs(fn, cfg, at, c, m, est, _who, "loop", witness(cfg, parent, (_nid, _st)), h)
+                                    return
                                 problems.setdefault((id(c), f2.qual, n2.id),
                                                     (c, m, own, f2, n2, _who, witness(cfg, parent, (_nid, _st))))
                             step(n, st, record)
@@ -1272,6 +1613,41 @@ def run(ctx: Context):
                                 "made that false: the exception ends the loop, the requests not yet reached are in nobody's "
                                 "queue any more so their Deferreds never fire, and _start_new_segment() is skipped"
                                 % (short(f2), src(f2, n2.ast), why, short(fn), src(fn, c), who), w)
+
+    # -- 10. no status call can die of a field that is still None ----------------
+    # The same hand-over as in 8: the requests have left the queue, the exception of a status call strands the ones
+    # not yet reached.  Here the exception is not an assert / raise but an operation on a field of the event that is
+    # still at the None add_segment_request created it with (active_time of a request that never became the head of
+    # the queue, finish_time / decode_time / segment_start of any request before it is resolved).
+    with ctx.rule("C46.10", "R1/E3", "a status-event method called for every request of a delivery loop (or between installing "
+                  "and waking a fetcher) performs no arithmetic / ordering comparison / subscript / attribute access / call / "
+                  "iteration / numeric or collection builtin on a field that is None in the state such a request's event is in, "
+                  "unless a None test, a handler for the error or the loop body (activate() first) rules that out", expected=4) as r:
+        if deref[0] is None or not deref_sites:
+            raise AnchorVanished("the status-event model of the delivery loops (C46.8) could not be built")
+        for (fn, node, note) in deref_sites:
+            r.site(fn, node, note)
+        r.count(deref[0].states)
+        for (fn, c, exc, f2, n2, e2, l2, chain, who, where, w, shielded) in deref_problems.values():
+            via = (" (reached through %s)" % " -> ".join("`%s`" % x for x in chain)) if chain else ""
+            if where == "loop" and shielded:
+                r.violation(f2, f2.loc(n2.ast), "%s evaluates `%s`%s, which raises %s when %s is None, and the delivery loop of %s calls "
+                            "`%s` for every request it took off _segment_requests - also for %s, whose event still has %s at the "
+                            "None add_segment_request created it with: the handler in the loop body catches the exception but "
+                            "the request is then not handed to _deliver any more, and it is in nobody's queue: its Deferred never fires"
+                            % (short(f2), src(f2, e2), via, exc, l2, short(fn), src(fn, c), who, l2), w)
+            elif where == "loop":
+                r.violation(f2, f2.loc(n2.ast), "%s evaluates `%s`%s, which raises %s when %s is None, and the delivery loop of %s calls "
+                            "`%s` for every request it took off _segment_requests - also for %s, whose event still has %s at the "
+                            "None add_segment_request created it with (or the method itself left it None): the exception ends the "
+                            "loop, the requests not yet reached are in nobody's queue any more so their Deferreds never fire, and "
+                            "_start_new_segment() is skipped"
+                            % (short(f2), src(f2, e2), via, exc, l2, short(fn), src(fn, c), who, l2), w)
+            else:
+                r.violation(f2, f2.loc(n2.ast), "%s evaluates `%s`%s, which raises %s when %s is None - the state the event of %s is "
+                            "in - and _start_new_segment calls `%s` between installing the new SegmentFetcher and waking it with "
+                            "add_shares(): the fetcher never runs, _active_segment stays occupied and every read on this node "
+                            "waits for ever" % (short(f2), src(f2, e2), via, exc, l2, who, src(fn, c)))
 
     # -- 9. the finder retires a request whatever is left of its bookkeeping ----
     # _request_retired runs once per DYHB query, possibly long after the overdue timer of that query fired (overdue()
